@@ -496,4 +496,109 @@ example : Builds (fromSuffix ['a', 'b'] ['a', 'a', 'b', 'a', 'a'] false) ['a', '
     (fun w => ['a', 'a', 'b', 'a', 'a'] <:+ w ↔ false = true) :=
   (C15_from_suffix _ _ (by decide) _).1
 
+/-! ## from_substrings (Aho–Corasick) and from_finite_language
+
+The models (`fromSubstrings`: trie with labels in insertion order, failure links, output links,
+absorbing end state unless suffix mode; `fromFiniteLanguage`: sorted insertion into a trie with
+a signature register and compression of the non-shared suffix of the previous word,
+`_to_complete` with trap `0`) are executable and tied to the code by the correspondence run.
+Their general theorems are stated here in full (`…_full`); what is proved at this stage is
+listed after each statement (`…_partial`), together with the counter-examples of the two open
+findings. -/
+
+/-- The verdict of the DFA returned by a constructor call (`none` if the call raised). -/
+def verdict (r : Res (DFA σ α)) (w : List α) : Option Bool :=
+  match r with
+  | .ok d => some (d.accepts w)
+  | .error _ => none
+
+/-- Number of states of the DFA returned by a constructor call. -/
+def size (r : Res (DFA σ α)) : Option Nat :=
+  match r with
+  | .ok d => some d.states.length
+  | .error _ => none
+
+/-- **Full statement for `from_substrings`.**  For every alphabet, every set of patterns over
+it (in every iteration order), not containing the empty pattern in suffix mode, and both values
+of both flags: a valid complete DFA accepting exactly the words over `Σ` that contain (resp.
+end with) one of the patterns — or exactly the others when `contains = False`.  (No minimality
+is promised by the documentation.) -/
+def C15_from_substrings_full : Prop :=
+  ∀ (α : Type) [DecidableEq α] (syms : List α) (pats : List (List α)) (contains sf : Bool),
+    (∀ p ∈ pats, ∀ c ∈ p, c ∈ syms) → (sf = true → [] ∉ pats) →
+    Builds (fromSubstrings syms pats contains sf) syms
+      (fun w => (∃ p ∈ pats, if sf then p <:+ w else p <:+: w) ↔ contains = true)
+
+/-- Proved part of `C15_from_substrings_full`: the statement on concrete instances with
+overlapping patterns where one pattern is a suffix / an infix of another (evaluation of the
+model by the kernel; all words up to length 3 are decided); the general proof — state after `w`
+= deepest trie node that is a suffix of `w` — is not done. -/
+theorem C15_from_substrings_partial :
+    (∀ w ∈ [[], [0], [1], [0, 1], [1, 1], [0, 0, 1], [0, 1, 0], [1, 0, 0], [0, 0, 0]],
+      verdict (fromSubstrings [0, 1] [[0, 0, 1], [0, 1], [1, 1]] true true) w =
+        some (decide (∃ p ∈ [[0, 0, 1], [0, 1], [1, 1]], p <:+ w))) ∧
+    (∀ w ∈ [[], [0], [1], [0, 1], [1, 0], [0, 1, 0], [1, 0, 1], [1, 1, 1], [0, 0, 0]],
+      verdict (fromSubstrings [0, 1] [[1, 0, 1], [0]] false false) w =
+        some (decide (¬ ∃ p ∈ [[1, 0, 1], [0]], p <:+: w))) := by
+  decide
+
+/-- **Open finding F10, second half**: with the empty pattern in the set and suffix mode the
+result is wrong — the complement DFA for `{"", "cab"}` accepts `"c"` although every word ends
+with the empty pattern (symbols `a, b, c` = `0, 1, 2`). -/
+theorem C15_from_substrings_empty_pattern_cex :
+    verdict (fromSubstrings [0, 1, 2] [[], [2, 0, 1]] false true) [2] = some true := by decide
+
+/-- **Open finding F20** (new): a pattern with a symbol outside the alphabet, substring mode —
+`end_state = len(transitions)` collides with the label of a trie node:
+`from_substrings({a,b}, ["cc", "ab"])` accepts `"a"`. -/
+theorem C15_from_substrings_foreign_symbol_cex :
+    verdict (fromSubstrings [0, 1] [[2, 2], [0, 1]] true false) [0] = some true := by decide
+
+/-- A strict total order on symbols, as a Boolean `<` (code points). -/
+structure StrictTotal (lt : α → α → Bool) : Prop where
+  irrefl : ∀ a, lt a a = false
+  trans : ∀ a b c, lt a b = true → lt b c = true → lt a c = true
+  total : ∀ a b, lt a b = true ∨ a = b ∨ lt b a = true
+
+/-- **Full statement for `from_finite_language`.**  For every alphabet, every finite set of
+words over it, both values of `as_partial`: a valid DFA accepting exactly the words of the
+language; in partial form all states are reachable, live and pairwise distinguishable (no DFA
+at all is smaller), in complete form (over a non-empty alphabet) all states are reachable and
+pairwise distinguishable (no complete DFA is smaller). -/
+def C15_from_finite_language_full : Prop :=
+  ∀ (α : Type) [DecidableEq α] (lt : α → α → Bool), StrictTotal lt →
+    ∀ (syms : List α) (lang : List (List α)) (asPartial : Bool),
+      (∀ w ∈ lang, ∀ c ∈ w, c ∈ syms) →
+      Builds (fromFiniteLanguage lt syms lang asPartial) syms (fun w => w ∈ lang) ∧
+      ∀ d, fromFiniteLanguage lt syms lang asPartial = .ok d →
+        (asPartial = true → lang ≠ [] → MinimalPartialShape d ∧ MinimalAmongAll d) ∧
+        ((asPartial = false ∨ lang = []) → syms ≠ [] → MinimalShape d ∧ MinimalAmongComplete d)
+
+/-- Proved part of `C15_from_finite_language_full`: the empty language in general (the code
+returns `empty_language(Σ)` whatever `as_partial` is: valid, complete, minimal), and the
+statement on a concrete language with shared prefixes and shared suffixes (language decided on
+all words up to length 2 and the members, 4 states in partial and 5 in complete form — the
+Myhill–Nerode numbers).  The general proof (register invariant) is not done. -/
+theorem C15_from_finite_language_partial :
+    (∀ (lt : α → α → Bool) (syms : List α) (asPartial : Bool),
+      Builds (fromFiniteLanguage lt syms [] asPartial) syms (fun w => w ∈ ([] : List (List α))) ∧
+      ∀ d, fromFiniteLanguage lt syms [] asPartial = .ok d →
+        d.allowPartial = false ∧ MinimalShape d ∧ MinimalAmongComplete d) ∧
+    (∀ w ∈ [[], [0], [1], [0, 0], [0, 1], [1, 0], [1, 1], [0, 1, 1], [1, 0, 1], [0, 0, 1]],
+      verdict (fromFiniteLanguage (fun a b => decide (a < b)) [0, 1]
+          [[1, 0, 1], [0, 1], [1, 1], [0, 0, 1]] true) w =
+        some (decide (w ∈ [[1, 0, 1], [0, 1], [1, 1], [0, 0, 1]]))) ∧
+    size (fromFiniteLanguage (fun a b => decide (a < b)) [0, 1]
+          [[1, 0, 1], [0, 1], [1, 1], [0, 0, 1]] true) = some 4 ∧
+    size (fromFiniteLanguage (fun a b => decide (a < b)) [0, 1]
+          [[1, 0, 1], [0, 1], [1, 1], [0, 0, 1]] false) = some 5 := by
+  refine ⟨?_, by decide, by decide, by decide⟩
+  intro lt syms asPartial
+  have hr : fromFiniteLanguage lt syms [] asPartial = build (loopDFA FLName.zero syms false) := rfl
+  refine ⟨builds_of syms hr (loopDFA_wf _ syms false) rfl (fun w => by
+    rw [loopDFA_accepts]; simp), ?_⟩
+  intro d hd
+  rw [eq_of_build hr hd]
+  exact ⟨rfl, loopDFA_minimal _ syms false, C15_minimal_of_shape _ (loopDFA_minimal _ syms false)⟩
+
 end AV.Props.C15
